@@ -14,6 +14,8 @@ table of transitions `(UTC instant at which the offset starts to apply, offset)`
 `datetime` follows `TzLocation::datetime` of /repo e1e5204: `latest()` of the requested local time
 when it exists, otherwise `earliest()` of the first existing time among `requested + k min`, walked
 back second by second (`earliest()`) while the local time exists.
+`iter_range` follows /repo dfe1ade: filter (`keepRange`) → merge (`mergeRanges`) → map
+(`mapIntervals`); `next_change` pulls the first item of the same pipeline lazily (`firstMergedG`).
 What is NOT modelled: the content of the tz database (the table is an input; the correspondence
 harness extracts it from chrono-tz), leap seconds, coordinates / sun events (C11).
 Core-only imports.
